@@ -938,6 +938,8 @@ def cat(tensors, dim=0):
 
     if tensors[0].is_ttm:
         raise InvalidArguments("Not implemented for tensor matrices.")
+    if any(t.cores[0].dtype != tensors[0].cores[0].dtype for t in tensors):
+        raise InvalidArguments("The tensors must have the same dtype.")
     if dim < 0 or dim >= len(tensors[0].N):
         raise InvalidArguments(
             "The concatenation dimension must be between 0 and the number of dimensions minus 1.")
